@@ -2,6 +2,8 @@ package main
 
 import (
 	"bufio"
+	"math/rand"
+	"encoding/hex"
 	"fmt"
 	"io"
 	"math/big"
@@ -12,6 +14,7 @@ import (
 	"time"
 
 	"github.com/MinterTeam/minter-go-node/coreV2/state/accounts"
+	"github.com/MinterTeam/minter-go-node/coreV2/state/commission"
 	"github.com/tendermint/tendermint/crypto/ed25519"
 	tx "github.com/MinterTeam/minter-go-node/coreV2/transaction"
 	"github.com/MinterTeam/minter-go-node/coreV2/types"
@@ -140,6 +143,8 @@ type HistOpts struct {
 	TimeMode  int  // 0: steady 5s from 09:00; 1: jumps that hit the 12-15h window
 	Restarts  int  // percent chance of restart after a commit (disk nodes)
 	Focus     string
+	NearVotes bool // governance votes target the next few heights
+	OrderDance int // percent of blocks that contain a fill-then-cancel pair on a committed order
 }
 
 // Hist is a running history.
@@ -158,6 +163,11 @@ type Hist struct {
 	Ops    int
 	FFH    map[uint64]bool // heights at which frozen funds may exist
 	OrdBy  map[types.Address]int // orders owned (committed + created in the current block)
+	byzSent map[types.TmAddress]bool
+	RRng    *rand.Rand // separate stream for restart decisions (twins must generate the same history)
+	Mirror  *Node    // optional twin node that receives the same ABCI calls
+	MirrorDiffs []string
+	MirrorProject func(Dump) Dump
 	begun  bool            // BeginBlock of N.Height has run and the block is not committed yet
 	TmSet  map[types.Pubkey]bool            // Tendermint's validator set (pubkeys) at the last begun height
 	TmPend map[uint64][]abci.ValidatorUpdate // updates taking effect at height
@@ -184,8 +194,8 @@ func NewHist(o HistOpts, sink *Sink) (*Hist, error) {
 	if err != nil {
 		return nil, err
 	}
-	h := &Hist{O: o, W: w, N: n, S: sink, View: Dump{}, Univ: map[types.Address]bool{}, Stats: map[string]int{}, Absent: map[types.TmAddress]int{}, FFH: map[uint64]bool{}}
-	h.G = &Gen{W: w, N: n, Weights: o.Weights, MalformedPct: o.Malformed, CustomGasPct: o.CustomGas, MultisigPct: o.Multisig}
+	h := &Hist{O: o, W: w, N: n, S: sink, View: Dump{}, Univ: map[types.Address]bool{}, Stats: map[string]int{}, Absent: map[types.TmAddress]int{}, FFH: map[uint64]bool{}, byzSent: map[types.TmAddress]bool{}}
+	h.G = &Gen{W: w, N: n, Weights: o.Weights, MalformedPct: o.Malformed, CustomGasPct: o.CustomGas, MultisigPct: o.Multisig, NearVotes: o.NearVotes}
 	if h.G.Weights == nil {
 		h.G.Weights = DefaultWeights()
 	}
@@ -197,10 +207,20 @@ func NewHist(o HistOpts, sink *Sink) (*Hist, error) {
 	}
 	h.Univ[types.Address{}] = true
 	h.Univ[burnAddr] = true
+	h.RRng = rand.New(rand.NewSource(o.Seed ^ 0x7e57))
 	h.TmSet = map[types.Pubkey]bool{}
 	h.TmPend = map[uint64][]abci.ValidatorUpdate{}
-	for _, v := range gen.Validators {
-		h.TmSet[v.PubKey] = true
+	for _, u := range n.InitVals {
+		var pk types.Pubkey
+		copy(pk[:], u.PubKey.GetEd25519())
+		if u.Power > 0 {
+			h.TmSet[pk] = true
+		}
+	}
+	if len(h.TmSet) == 0 {
+		for _, v := range gen.Validators {
+			h.TmSet[v.PubKey] = true
+		}
 	}
 	h.PrevSet = copySet(h.TmSet)
 	h.T = time.Date(2024, 1, 10, 9, 0, 0, 0, time.UTC)
@@ -332,6 +352,25 @@ func (h *Hist) liveProjection() Dump {
 			}
 		}
 	}
+	// governance votes for the next heights (halts, commission tables, versions)
+	for vh := h.N.Height; vh <= h.N.Height+24; vh++ {
+		if m := cs.Halts().GetHaltBlocks(vh); m != nil {
+			for _, it := range m.List {
+				d[fmt.Sprintf("h %d %s", vh, hexs(it.Pubkey[:]))] = "1"
+			}
+		}
+		for _, m := range cs.Commission().GetVotes(vh) {
+			dg := commissionDigest(priceToCommission(commission.Decode(m.Price)))
+			for _, pk := range m.Votes {
+				d[fmt.Sprintf("cv %d %s", vh, hexs(pk[:]))] = dg
+			}
+		}
+		for _, m := range cs.Updates().GetVotes(vh) {
+			for _, pk := range m.Votes {
+				d[fmt.Sprintf("uv %d %s", vh, hexs(pk[:]))] = m.Version
+			}
+		}
+	}
 	h.FFH[h.N.Height+types.GetUnbondPeriod()] = true
 	h.FFH[h.N.Height+types.GetMovePeriod()] = true
 	for fh := range h.FFH {
@@ -397,7 +436,7 @@ func (h *Hist) sendLive(op string) {
 
 // liveKey: dump keys maintained by the live projection.
 func liveKey(k string) bool {
-	for _, p := range []string{"b ", "n ", "c ", "p ", "cand ", "st ", "wl ", "ff ", "v "} {
+	for _, p := range []string{"b ", "n ", "c ", "p ", "cand ", "st ", "wl ", "ff ", "v ", "h ", "cv ", "uv "} {
 		if strings.HasPrefix(k, p) {
 			return true
 		}
@@ -506,7 +545,9 @@ func (h *Hist) Block() bool {
 				continue
 			}
 			var pk types.Pubkey
-			fmt.Sscanf(vf[1], "%x", &pk)
+			if b, err := hex.DecodeString(vf[1]); err == nil {
+				copy(pk[:], b)
+			}
 			if !h.PrevSet[pk] && !h.TmSet[pk] {
 				continue
 			}
@@ -522,7 +563,8 @@ func (h *Hist) Block() bool {
 		} else if len(near) > 0 && h.W.Rng.Intn(100) < 20 {
 			a = &near[h.W.Rng.Intn(len(near))]
 		}
-		if a != nil {
+		if a != nil && h.futureSetSize() > 2 && !h.byzSent[*a] {
+			h.byzSent[*a] = true
 			byz = append(byz, *a)
 			bparts = append(bparts, fmt.Sprintf("%x", a[:]))
 		}
@@ -538,6 +580,11 @@ func (h *Hist) Block() bool {
 	stopsBefore := n.App.VerifStopCount()
 	pan := n.Begin(height, t, votes, byz)
 	h.begun = true
+	if h.Mirror != nil {
+		if mp := h.Mirror.Begin(height, t, votes, byz); mp != pan {
+			h.MirrorDiffs = append(h.MirrorDiffs, fmt.Sprintf("BeginBlock h=%d: panic %q vs %q", height, pan, mp))
+		}
+	}
 	h.Ops++
 	h.S.Op(fmt.Sprintf("B h=%d t=%d votes=%s byz=%s panic=%q", height, t.Unix(), strings.Join(vparts, ","), strings.Join(bparts, ","), pan))
 	if pan != "" {
@@ -551,8 +598,29 @@ func (h *Hist) Block() bool {
 	}
 	h.sendLive("S begin")
 	ntx := h.W.Rng.Intn(h.O.TxPerBlk*2 + 1)
+	var queue []*GenTx
+	if h.O.OrderDance > 0 && h.W.Rng.Intn(100) < h.O.OrderDance {
+		ntx += 2
+	}
+	danceAt := -1
+	if h.O.OrderDance > 0 && ntx >= 2 && h.W.Rng.Intn(100) < h.O.OrderDance {
+		danceAt = h.W.Rng.Intn(ntx - 1)
+	}
 	for i := 0; i < ntx; i++ {
-		g := h.G.Next(height)
+		var g *GenTx
+		if i == danceAt {
+			queue = h.G.orderDance(h.View)
+		}
+		if len(queue) > 0 {
+			g = queue[0]
+			queue = queue[1:]
+			// re-sign with the current nonce (an earlier tx of the same sender may have been accepted meanwhile)
+			note := g.Note
+			g = h.G.Build(g.Type, g.Data, g.Sender, g.GasCoin, func(t *tx.Transaction) { t.GasPrice = 1; t.Payload = nil; t.ServiceData = nil })
+			g.Note = note
+		} else {
+			g = h.G.Next(height)
+		}
 		if h.O.CheckTx {
 			cr, cp := n.Check(g.Raw)
 			h.S.Op(fmt.Sprintf("K code=%d panic=%q raw=%x", cr.Code, cp, g.Raw))
@@ -566,6 +634,12 @@ func (h *Hist) Block() bool {
 		}
 		r, dp := n.Deliver(g.Raw)
 		h.Ops++
+		if h.Mirror != nil {
+			mr, mp := h.Mirror.Deliver(g.Raw)
+			if mr.Code != r.Code || mp != dp || fmt.Sprint(tagsOf(mr.Events)) != fmt.Sprint(tagsOf(r.Events)) {
+				h.MirrorDiffs = append(h.MirrorDiffs, fmt.Sprintf("DeliverTx h=%d type=%d: code %d vs %d, tags %v vs %v", height, g.Type, r.Code, mr.Code, tagsOf(r.Events), tagsOf(mr.Events)))
+			}
+		}
 		if dp != "" {
 			h.S.Op(fmt.Sprintf("D code=999 panic=%q type=%d raw=%x", dp, g.Type, g.Raw))
 			h.Panics = append(h.Panics, fmt.Sprintf("DeliverTx h=%d type=%d: %s raw=%x", height, g.Type, dp, g.Raw))
@@ -596,6 +670,12 @@ func (h *Hist) Block() bool {
 	}
 	er, ep := n.End(height)
 	h.Ops++
+	if h.Mirror != nil {
+		mer, mep := h.Mirror.End(height)
+		if mep != ep || (h.MirrorProject == nil && fmtUpdates(mer.ValidatorUpdates) != fmtUpdates(er.ValidatorUpdates)) {
+			h.MirrorDiffs = append(h.MirrorDiffs, fmt.Sprintf("EndBlock h=%d: updates %s vs %s (%q/%q)", height, fmtUpdates(er.ValidatorUpdates), fmtUpdates(mer.ValidatorUpdates), ep, mep))
+		}
+	}
 	if ep != "" {
 		h.S.Op(fmt.Sprintf("E h=%d panic=%q", height, ep))
 		h.Panics = append(h.Panics, fmt.Sprintf("EndBlock h=%d: %s", height, ep))
@@ -618,6 +698,28 @@ func (h *Hist) Block() bool {
 	}
 	hash, cp := n.Commit()
 	h.Ops++
+	if h.Mirror != nil {
+		_, mcp := h.Mirror.Commit()
+		if mcp != cp {
+			h.MirrorDiffs = append(h.MirrorDiffs, fmt.Sprintf("Commit h=%d: %q vs %q", height, cp, mcp))
+		} else if cp == "" {
+			s1, _ := n.Export()
+			s2, _ := h.Mirror.Export()
+			d1, d2 := DumpState(&s1), DumpState(&s2)
+			delete(d1, "app maxgas") // derived from the block-time history, which a genesis does not carry
+			delete(d2, "app maxgas")
+			if h.MirrorProject != nil {
+				d1, d2 = h.MirrorProject(d1), h.MirrorProject(d2)
+			}
+			if diff := Delta(d1, d2); len(diff) > 0 {
+				sort.Strings(diff)
+				if len(diff) > 6 {
+					diff = diff[:6]
+				}
+				h.MirrorDiffs = append(h.MirrorDiffs, fmt.Sprintf("export after h=%d differs: %s", height, strings.Join(diff, " ; ")))
+			}
+		}
+	}
 	if cp != "" {
 		h.S.Op(fmt.Sprintf("C h=%d panic=%q", height, cp))
 		h.Panics = append(h.Panics, fmt.Sprintf("Commit h=%d: %s", height, cp))
@@ -626,8 +728,8 @@ func (h *Hist) Block() bool {
 	h.S.Op(fmt.Sprintf("C h=%d hash=%x", height, hash))
 	h.begun = false
 	h.sendFull("S commit")
-	if h.O.Restarts > 0 && n.Disk && h.W.Rng.Intn(100) < h.O.Restarts {
-		k := 1 + h.W.Rng.Intn(2)
+	if h.O.Restarts > 0 && n.Disk && h.RRng.Intn(100) < h.O.Restarts {
+		k := 1 + h.RRng.Intn(2)
 		for i := 0; i < k; i++ {
 			if err := n.Restart(); err != nil {
 				h.Panics = append(h.Panics, "restart: "+err.Error())
@@ -636,6 +738,7 @@ func (h *Hist) Block() bool {
 			}
 		}
 		h.G.N = n
+		h.Stats["restart"] += k
 		h.S.Op(fmt.Sprintf("R h=%d n=%d", height, k))
 		h.sendFull("S restart")
 	}
@@ -694,6 +797,12 @@ func (h *Hist) divergence(lp, d Dump) []string {
 				h.FFH[fh] = true
 				continue
 			}
+		case "h", "cv", "uv":
+			var vh uint64
+			fmt.Sscan(f[1], &vh)
+			if vh > h.N.Height+24 || vh < h.N.Height {
+				continue
+			}
 		}
 		out = append(out, fmt.Sprintf("%s live=absent disk=%q", k, dv))
 	}
@@ -704,7 +813,9 @@ func (h *Hist) divergence(lp, d Dump) []string {
 	return out
 }
 
-func (h *Hist) futureSetEmpty() bool {
+func (h *Hist) futureSetEmpty() bool { return h.futureSetSize() == 0 }
+
+func (h *Hist) futureSetSize() int {
 	set := copySet(h.TmSet)
 	var hs []uint64
 	for k := range h.TmPend {
@@ -722,7 +833,15 @@ func (h *Hist) futureSetEmpty() bool {
 			}
 		}
 	}
-	return len(set) == 0
+	return len(set)
+}
+
+func fmtUpdates(us []abci.ValidatorUpdate) string {
+	var p []string
+	for _, u := range us {
+		p = append(p, fmt.Sprintf("%x:%d", u.PubKey.GetEd25519(), u.Power))
+	}
+	return strings.Join(p, ",")
 }
 
 func copySet(m map[types.Pubkey]bool) map[types.Pubkey]bool {
@@ -772,6 +891,17 @@ func okstr(c uint32) string {
 		return "ok"
 	}
 	return "rej"
+}
+
+// blockTwin runs one block on the history's node and on a twin, reporting differences.
+func (h *Hist) blockTwin(twin *Node, res *ModeResult, fail func(string)) bool {
+	h.Mirror = twin
+	ok := h.Block()
+	for _, d := range h.MirrorDiffs {
+		fail("imported chain behaves differently: " + d)
+	}
+	h.MirrorDiffs = nil
+	return ok && len(res.Violations) == 0
 }
 
 func (h *Hist) Run() {
